@@ -9,7 +9,7 @@
    untouched rest and idempotence are decided per generated graph by the independent oracle (harness/spec_linear.py),
    not proved. *)
 From Coq Require Import List String Ascii ZArith Bool.
-From GfaV Require Import Base.Py Model.Codec Model.Graph Model.Topology Model.Linear Proofs.LinearP.
+From GfaV Require Import Base.Py Model.Codec Model.Graph Model.Topology Model.Linear Proofs.LinearP Proofs.GraphP Proofs.MergeFrameP.
 Import ListNotations.
 Open Scope string_scope.
 Open Scope list_scope.
@@ -66,6 +66,16 @@ Definition demo : gfa :=
          mk 3 KS1 ["D"; "*"] []; mk 4 KS1 ["E"; "*"] [];
          mk 5 KL ["A"; "+"; "B"; "-"; "2M"] []; mk 6 KL ["C"; "-"; "B"; "+"; "1M"] [];
          mk 7 KL ["C"; "+"; "D"; "+"; "*"] []; mk 8 KL ["C"; "+"; "E"; "+"; "*"] []] 9 "gfa1" 1.
+
+(* every segment that is not a member of the merged chain (and is not a placeholder) is in the graph afterwards, as it
+   was: the merge creates one segment, re-creates the outward dovetails and removes the members with what depends on
+   them, and a segment never depends on another line *)
+Theorem C14_other_segments_untouched : forall s path s' x,
+  ids_ok s -> merge_path s path = Ok s' ->
+  In x (lines s) -> is_segment x = true -> g_virtual x = false -> ~ In (nth_s 0 (g_pos x)) (map fst path) ->
+  In x (lines s').
+Proof. exact merge_path_keeps_other_segments. Qed.
+Print Assumptions C14_other_segments_untouched.
 
 Example C14_demo :
   linear_paths demo = Ok [[("A", "R"); ("B", "L"); ("C", "R")]]
